@@ -426,6 +426,10 @@ def predict (pr : Probe) (p : Profile) : Option (List Rat) :=
   | "kern" => one (fieldPipeline .kernValue v p)
   | "anchor" => one (fieldPipeline .anchorCoord v p)
   | "metric" =>
+    -- fontinfo.plist declares usWinAscent / usWinDescent non-negative: the UFO reader (norad, outside the model) refuses
+    -- a negative value before fontc sees it ("failed to load font info data"), the build fails
+    -- (likewise a non-integral one: the two keys are non-negative integers in the UFO specification)
+    if (pr.sub == "openTypeOS2WinAscent" ∨ pr.sub == "openTypeOS2WinDescent") && (v < 0 || v.den != 1) then none else
     one (fieldPipeline (if pr.sub == "openTypeOS2WinAscent" ∨ pr.sub == "openTypeOS2WinDescent" then .metricU16 else .metricI16) v p)
   | "ptdelta" => do
     -- font point order: start point, then the rest reversed (contour direction is flipped);
@@ -613,9 +617,14 @@ def handle : Handler := fun s =>
         let v := commonVerdict s pr corr res [s!"masters{d.masters.length}"] false
         if corr == some false then { v with detail := v.detail ++ s!" [model predicts {pred}, font shows {obs}]" } else v
       | _, _, _ => badInput "c19: cannot parse font dump"
-    | some (.atom "err" :: _) =>
-      let corr : Option Bool := some pred.isNone
-      let v := commonVerdict s pr corr {} [s!"masters{d.masters.length}"] true
+    | some (.atom "err" :: rest) =>
+      -- the source reader (norad, outside the model) refused the fontinfo value before fontc saw it (a negative,
+      -- fractional or over-long number where the UFO specification wants a (non-negative) integer): the model of fontc's
+      -- own narrowing has nothing to predict there; the build was refused, which is what the property asks
+      let msg := ((rest.getLast?).bind Sexp.asString?).getD ""
+      let readerRefused := (msg.splitOn "failed to load font info data").length > 1
+      let corr : Option Bool := if readerRefused && pred.isSome then none else some pred.isNone
+      let v := commonVerdict s pr corr {} ([s!"masters{d.masters.length}"] ++ (if readerRefused then ["reader-refused"] else [])) true
       if corr == some false then { v with detail := v.detail ++ s!" [model predicts a font with {pred}, the build failed]" } else v
     | _ => badInput "c19: no result"
   | _, _ => badInput "c19: cannot parse probe/design"
